@@ -208,7 +208,10 @@ func (s *Sess) New(chunks [][]byte, fin string) NewRes {
 	for i, c := range chunks {
 		cp[i] = append([]byte{}, c...)
 	}
-	s.Fake = &FakeConn{Chunks: cp, Fin: fin}
+	// some transports report the end of the stream together with its last bytes (n > 0 and an error from
+	// one Read). While NewConn reads the first record that makes no difference to anybody: io.ReadFull
+	// semantics. (Switched off afterwards: a relaying Conn.Read would pass the pair on as it got it.)
+	s.Fake = &FakeConn{Chunks: cp, Fin: fin, DataErr: (len(chunks)+len(s.Keys))%3 == 1}
 	var res NewRes
 	func() {
 		defer func() {
@@ -239,6 +242,9 @@ func (s *Sess) New(chunks [][]byte, fin string) NewRes {
 			}
 		}
 		c, err := ech.NewConn(context.Background(), s.Fake, opts...)
+		s.Fake.mu.Lock()
+		s.Fake.DataErr = false
+		s.Fake.mu.Unlock()
 		s.Conn = c
 		res.Err = ErrClass(err)
 		res.Accepted = c.ECHAccepted()
